@@ -50,7 +50,9 @@ RULE = (
     "encoding, in SolidFill, Divider, LineBox line characters and ScrollBar thumb / trough; (phase 8) Pile and Columns with weight 0, "
     "weights 1000 and 0.5 and given 0 in flow / box / fixed flavours, alone and under ListBox / Filler / LineBox / Columns parents; "
     "(phase 9) ProgressBar with / without satt x 8 fractions (0, 1/16, 1/8, 3/8, 0.77, 1, < 0, > done) x done 100 / 7 / 1 at widths 1..12 in "
-    "utf8, euc-jp, ascii and iso8859-1; (phase 10) ~450 recipes covering every case named by the `fixed: property=C01` lines of KNOWN_FINDINGS.txt."
+    "utf8, euc-jp, ascii and iso8859-1; (phase 10) ~450 recipes covering every case named by the `fixed: property=C01` lines of KNOWN_FINDINGS.txt; "
+    "(phase 11) 36 flow Columns with a box_columns member (SolidFill / ListBox, given / weight, first / middle / last) beside shown flow "
+    "columns that report 0 rows (empty Pile, Pile nesting one) at 4 widths x focus: rows() against the rendered rows, under its own signature."
 )
 ASSUMES = [
     "directed phase 4 only (a FIXED widget with a cursor clipped by Padding(width='clip') / Overlay(width='pack')): the character under the widget's own cursor is unique in its text, so when that character is visible in the clipping parent's canvas the canvas cursor, if present, must be on that cell; 'cursor outside although its cell is visible' is the C01 cursor clause for the visible part (kept apart from the known 'cursor left outside after its cell was clipped away' lines), 'cursor on another cell' goes one step beyond the statement and is reported under its own signature",
@@ -80,6 +82,7 @@ REQUIRE = {
     "directed_odd_option_trees": 40,
     "directed_progress_bar_trees": 150,
     "directed_regression_trees": 200,
+    "clause_box_column_rows": 60,
     "skipped_invalid": 1,
     "directed_control_text_trees": 50,
     "mode:utf8": 100,
@@ -948,6 +951,45 @@ def regression_cases():
     return out
 
 
+# ---------------------------------------------------------------- directed phase 11: box column beside a shown 0-row flow column
+
+
+def zero_row_flow_cases():
+    """Columns rendered as a flow widget with a box_columns member whose only shown non-box columns report 0 rows (an empty
+    Pile, a Pile nesting one): rows() answers max(1, heights), so the box column must get one row too (eda518a)."""
+    empty = _pile_([])
+    nested = _pile_([("pack", None, _pile_([]))])
+    lbx = _lb_([_txt_("t")], None, "SimpleListWalker")
+    for zero in (empty, nested):
+        for box in (_sf_(), lbx):
+            for bk, ba in (("given", 2), ("weight", 1)):
+                yield _cols_([("weight", 1, zero), (bk, ba, box)], 0, [1])
+                yield _cols_([(bk, ba, box), ("weight", 1, zero)], 1, [0])
+                yield _cols_([("weight", 1, zero), (bk, ba, box), ("weight", 2, zero)], 0, [1])
+
+
+def check_box_column_rows(env, recipe, size, focus):
+    """-> None | message: rows() against the rendered rows of one of the phase-11 Columns (its own signature, because the
+    unrelated known line C01|Columns|rows!=rows() -- a Columns holding nothing but an empty Pile -- has the same clause)"""
+    from urwid.canvas import CanvasCache
+
+    CanvasCache.clear()
+    with warnings.catch_warnings(record=True) as ws:
+        warnings.simplefilter("always")
+        try:
+            w = T.build(recipe)
+            rows = w.rows(size, focus)
+            canv = w.render(size, focus)
+        except Exception:  # noqa: BLE001  (reported by the ordinary evaluation of the same case)
+            return None
+    if _widget_warning(ws):
+        return None
+    env.ctx.count("clause_box_column_rows")
+    if canv.rows() != rows:
+        return f"rows({size!r}, {focus}) = {rows} but the canvas has {canv.rows()} rows: the box_columns member got no row beside a shown flow column that reports 0 rows"
+    return None
+
+
 def drive_tree(env, recipe, mode, sizes_for, seen_prekeys, max_per_prekey):
     """all sizing modes x sizes x focus for one recipe"""
     ctx = env.ctx
@@ -1179,6 +1221,23 @@ def run(ctx):
                          "box": small["box"] + [(3, 3), (6, 1), (8, 8), (40, 13)]}  # fmt: skip
             drive_tree(env, recipe, mode, lambda smode: reg_sizes[smode], seen_prekeys, max_per_prekey)
             ctx.count("directed_regression_trees")
+        # 11. directed: a box_columns member beside a SHOWN flow column that reports 0 rows (second half of eda518a)
+        j = 0
+        for recipe in zero_row_flow_cases():
+            j += 1
+            if not ctx.mine(j):
+                continue
+            sizes11 = [(c,) for c in (3, 5, 8, 13)]
+            drive_tree(env, recipe, "utf8", lambda smode: sizes11 if smode == "flow" else [], seen_prekeys, max_per_prekey)
+            env.set_mode("utf8")
+            for size in sizes11:
+                for focus in FOCI:
+                    msg = check_box_column_rows(env, recipe, size, focus)
+                    if msg:
+                        wit = {"mode": "utf8", "recipe": recipe, "size": list(size), "focus": focus, "clause": "box-column-rows"}
+                        code = f"import urwid; w = {T.to_code(recipe)}; w.rows({size!r}, {focus}); w.render({size!r}, {focus}).rows()"
+                        ctx.violation("C01|Columns|rows!=rows()|box-column-beside-0-row-flow-column", f"{msg}\n  replay: {code}", wit)
+            ctx.count("directed_zero_row_flow_trees")
     finally:
         env.m1.uninstall()
         urwid.util.set_encoding(old_enc)
@@ -1203,6 +1262,14 @@ def replay(ctx, wit):
         size, focus = tuple(wit["size"]), bool(wit["focus"])
         INTERNAL_WARNINGS.clear()
         INTERNAL_WARNINGS.update(wit.get("ignore_warnings", []))
+        if wit.get("clause") == "box-column-rows":
+            msg = check_box_column_rows(env, recipe, size, focus)
+            if msg:
+                ctx.violation("C01|Columns|rows!=rows()|box-column-beside-0-row-flow-column", msg, wit)
+                print("replayed: C01|Columns|rows!=rows()|box-column-beside-0-row-flow-column ::", msg)
+            else:
+                print("replay: box-column-rows clause holds")
+            return
         if wit.get("clause") == "clip-cursor":
             got = check_clip_cursor(env, recipe, size)
             if got:
